@@ -315,6 +315,11 @@ def run_program(sk, dtype_name="float32"):
         mask = None
         if o["op"] == "where":
             mask = (torch.arange(twin.numel()) % 3 != 0).reshape(twin.shape)
+        if (o["op"] == "linear" and o.get("aux") in ("qw8", "qw8_tensor") and dtype_name == "bfloat16" and twin.shape[-1] % 4 == 0
+                and not (isinstance(cur, QBytesTensor) and cur.axis is None)):
+            # bfloat16 float input x int8 weights with in_features % 4 == 0 reaches torch._weight_int8pack_mm, which takes the
+            # process down unless in_features % 16 == 0 (known finding C07-int8pack-bf16, judged by C07 in forked children)
+            break
         ev = {"act": "Op", "o": o, "op": o["op"], "before": project(cur), "aux": project(aux, False) if aux is not None else {"kind": "none"}}
         try:
             ft = apply_op(o, twin, faux, faux2, mask)
@@ -381,16 +386,41 @@ def run_program(sk, dtype_name="float32"):
     return steps
 
 
+def run_chunk(chunk):
+    return [run_program(sk, dt) for sk, dt in chunk]
+
+
+def _chunk_job(chunk):
+    """One chunk of programs in a forked grandchild: a kernel that takes the process down (it happened: a pool worker that dies
+    makes multiprocessing wait forever) costs that one program, which becomes a `Crash` observation (admitted by no action)."""
+    from isolate import run_isolated
+    r = run_isolated(run_chunk, chunk, timeout=900)
+    if "ok" in r:
+        return r["ok"]
+    out = []
+    for sk, dt in chunk:
+        r1 = run_isolated(run_program, sk, dt, timeout=180)
+        if "ok" in r1:
+            out.append(r1["ok"])
+        else:
+            out.append([{"act": "Crash", "init": sk["init"], "dtype": dt, "prog": sk["prog"],
+                         "outcome": r1.get("exc") or ("signal %s" % r1.get("crash")), "msg": (r1.get("msg") or "")[:300]}])
+    return out
+
+
 def main():
     req = json.load(open(sys.argv[1]))
     jobs = [(sk, dt) for sk in req["skeletons"] for dt in req.get("dtypes", ["float32"])]
     import multiprocessing as mp
     nproc = req.get("procs", 12)
+    # warm up once in the parent (kernels, op registration), so that forked children do not repeat it
+    run_program({"init": {"kind": "QBytes", "qt": "qint8", "axis": "none", "shape": [2, 3]}, "prog": [{"op": "neg"}]}, "float32")
+    chunks = [jobs[i:i + 64] for i in range(0, len(jobs), 64)]
     if nproc > 1 and len(jobs) > 200:
         with mp.get_context("fork").Pool(nproc) as pool:
-            traces = pool.starmap(run_program, jobs, chunksize=64)
+            traces = [t for part in pool.map(_chunk_job, chunks, chunksize=1) for t in part]
     else:
-        traces = [run_program(sk, dt) for sk, dt in jobs]
+        traces = [t for c in chunks for t in _chunk_job(c)]
     json.dump({"traces": traces}, open(sys.argv[2], "w"))
 
 
